@@ -162,6 +162,11 @@ impl From<Vec<u8>> for Label {
         Label(v)
     }
 }
+impl Label {
+    pub fn len(&self) -> usize {
+        self.0.len()
+    }
+}
 impl fmt::Display for Label {
     fn fmt(&self, f: &mut fmt::Formatter<'_>) -> fmt::Result {
         write!(
